@@ -2,13 +2,19 @@
 """summarize_harmless.py: seeded_pending/detect_harmless.log -> seeded/HARMLESS.md (+ copies the patches to seeded/harmless/)."""
 import json, os, re, shutil
 V = "/verif"
-log = os.path.join(V, "seeded_pending", "detect_harmless.log")
+logs = [os.path.join(V, "seeded_pending", n) for n in ("detect_harmless.log", "detect_harmless2.log", "detect_harmless_final.log")]
 rows, cur = [], None
-for l in open(log):
+import itertools
+byhid = {}
+for l in itertools.chain.from_iterable(open(x) for x in logs if os.path.exists(x)):
     m = re.match(r"=== (\S+) own=", l)
     if m:
         cur = dict(dir=m.group(1), quiet=[], nfif=[], alarm=[], infra=[])
-        rows.append(cur)
+        if m.group(1) in byhid:          # a later log replaces the earlier entry of the same rewrite
+            rows[byhid[m.group(1)]] = cur
+        else:
+            byhid[m.group(1)] = len(rows)
+            rows.append(cur)
         continue
     m = re.match(r"\[(C\d\d)\] rc=(\d+) ?(.*)", l)
     if m and cur:
@@ -26,9 +32,10 @@ out = os.path.join(V, "seeded", "harmless")
 os.makedirs(out, exist_ok=True)
 with open(os.path.join(V, "seeded", "HARMLESS.md"), "w") as f:
     f.write("# Property-preserving rewrites and what the checks say about them\n\n"
-            "Twelve rewrites by four sub-agents (internal refactorings with byte-identical output; text changes no property cares about; robustness / "
-            "performance clean-ups; equivalent restructurings), each applied to /repo and run against the quick checks "
-            "(checklib/run_harmless.py). `quiet` = exit 0; `correspondence` = the check reports `VIOLATION .. no-failing-input-found` because the rewrite changed "
+            "Twenty-four rewrites by eight sub-agents (H1-H4: internal refactorings with byte-identical output; text changes no property cares about; robustness / "
+            "performance clean-ups; equivalent restructurings. H5-H8: generated-text changes in the bind group / entry / compute modules; refactorings of the "
+            "traversals; restructuring of the formatter invocation; equivalent rewrites of option handling), each applied to a scratch worktree and run against "
+            "the 18 fast quick checks with the committed machinery (checklib/psweep.py --props all-fast). `quiet` = exit 0; `correspondence` = the check reports `VIOLATION .. no-failing-input-found` because the rewrite changed "
             "a fact the model pins while the property's own predicate still holds on every explored input (the protocol for a broken correspondence); "
             "`ALARM` = a violation with a failing input - would be a false alarm.\n\n")
     f.write("| rewrite | what | quiet | correspondence only | ALARM |\n|---|---|---|---|---|\n")
